@@ -723,3 +723,68 @@ def fs10(P, C, members=("order",)):
              (f.render(bad[0][0]).replace("this->", ""), f.loc(bad[0][0]), "entry 0 has not been" if bad[0][1] == "zero" else "not every entry has been"))
         C.ob("FS-10", "read_fits_core", "write-sites:%s" % mem, len(writes) >= 2, f.where(), "%d statements define entries of %s" % (len(writes), mem))
     return n_obl
+
+
+# --------------------------------------------------------------------------
+# FS-12: equality is reflexive on what a file can hold
+# --------------------------------------------------------------------------
+def fs12(P, C):
+    C.rule("FS-12", "operator== compares the coefficient arrays with a relation under which a NaN equals a NaN in the same place: a table may "
+           "hold NaN coefficients, the file preserves them bit for bit, and the table read back has to compare equal to the original "
+           "(and to itself). Accepted: a bytewise comparison (memcmp), or std::equal with a predicate whose body has the value comparison "
+           "a == b in disjunction with a test that both are NaN (a != a && b != b, or isnan on both). Plain std::equal on floats is not "
+           "reflexive", floor=1)
+    eq = [g for g in P.fns("operator==") if g.cls == ts.CLS and g.unit == "driver"]
+    if not eq:
+        raise core.AnalysisBroken("FS-12: operator== of the table not found")
+    f = eq[0]
+    sites = []
+    for i, cal in f.calls():
+        if not cal or cal["name"] not in ("equal", "memcmp", "mismatch"):
+            continue
+        a = f.args(i)
+        r = ts.root_member(f, a[0]) if a else None
+        if r and r[0] == "coefficients" and r[2] == "this":
+            sites.append(i)
+    if not sites:
+        raise core.AnalysisBroken("FS-12: operator== does not compare the coefficients with std::equal / memcmp (see FS-1)")
+    for i in sites:
+        cal = f.nodes[i]["callee"]
+        a = f.args(i)
+        ok, det = False, ""
+        if cal["name"] == "memcmp":
+            ok, det = True, "bytewise comparison"
+        elif len(a) >= 4:
+            lam = next((x for x in f.walk(a[3]) if f.k(x) == "LambdaExpr"), None)
+            g = P.functions.get(f.nodes[lam].get("lambdaUsr")) if lam is not None else None
+            if g is None:
+                det = "the predicate handed to std::%s is not a lambda that can be inspected" % cal["name"]
+            else:
+                pa = [p_["id"] for p_ in g.params]
+                txt = ""
+                value_eq = nan_both = False
+                for x in g.walk():
+                    n = g.nodes[x]
+                    if n["k"] == "BinaryOperator" and n.get("op") == "==":
+                        ids = [g.nodes[g.strip(c)]["decl"].get("id") for c in n["ch"] if g.k(g.strip(c)) == "DeclRefExpr"]
+                        if len(pa) == 2 and sorted(ids) == sorted(pa):
+                            value_eq = True
+                nan_tests = set()
+                for x in g.walk():
+                    n = g.nodes[x]
+                    if n["k"] == "BinaryOperator" and n.get("op") == "!=":
+                        ids = [g.nodes[g.strip(c)]["decl"].get("id") for c in n["ch"] if g.k(g.strip(c)) == "DeclRefExpr"]
+                        if len(ids) == 2 and ids[0] == ids[1] and ids[0] in pa:
+                            nan_tests.add(ids[0])
+                    cc = n.get("callee")
+                    if cc and cc["name"] in ("isnan", "__builtin_isnan", "__isnanf", "__isnan"):
+                        for aa in g.args(x):
+                            for y in g.walk(aa):
+                                if g.k(y) == "DeclRefExpr" and g.nodes[y]["decl"].get("id") in pa:
+                                    nan_tests.add(g.nodes[y]["decl"]["id"])
+                nan_both = len(pa) == 2 and nan_tests == set(pa)
+                ok = value_eq and nan_both
+                det = "predicate %s: value comparison %s, both-NaN test %s" % (g.render(g.body)[:80], value_eq, nan_both)
+        else:
+            det = "std::%s(first, last, other) compares floats with ==: NaN != NaN, so a table with a NaN coefficient is unequal to its exact copy and to itself" % cal["name"]
+        C.ob("FS-12", "operator==", "nan-reflexive:coefficients", ok, f.loc(i), det)
